@@ -8,3 +8,10 @@ import Helm.Props.C15
 #print axioms Helm.Props.C15.counterexample_backslash
 #print axioms Helm.Props.C15.counterexample_v1_lock
 #print axioms Helm.Props.C15.values_written_only_from_raw
+#print axioms Helm.Props.C15.ignored_files_are_not_loaded
+#print axioms Helm.Props.C15.unignored_files_are_loaded
+#print axioms Helm.Props.C15.ignored_directory_hides_contents
+#print axioms Helm.Props.C15.positive_rules_any_match
+#print axioms Helm.Props.C15.positive_rules_order_immaterial
+#print axioms Helm.Props.C15.literal_pattern
+#print axioms Helm.Props.C15.star_suffix_pattern
